@@ -25,6 +25,7 @@
     start state, with every named project / user / consumer type existing.  NOT PROVED (see the end
     of the file for what is missing).
 -/
+import Placement.Lemmas.GuardTie
 import Placement.Lemmas.SchedSerRp
 import Placement.Lemmas.SchedQuiet
 import Placement.Lemmas.WfExample
